@@ -194,7 +194,8 @@ def standin_artifact_name(tier, seed):
             'xml': '{root = {name = "top"}}'}
     names = NAMES if tier == 'thorough' else NAMES[:4]
     bound = ('8 converters x %d source names (%s), built by relative path, by absolute path from another directory, and by bare name from inside the directory of the file; '
-             'artifact = NAME.<ext> next to the source, bytes = `convert`; + files with 0 and 2 out statements') % (len(names), ', '.join(repr(x + '.ucg') for x in names))
+             '+ per converter a SYMLINKED source deploy/F_prod.ucg -> ../shared/F_base.ucg (artifact deploy/F_prod.<ext>); artifact = NAME.<ext> next to the file given, bytes = `convert`; '
+             '+ every converter: same file built twice, second output shorter; + files with 0 and 2 out statements (also reached through `..`)') % (len(names), ', '.join(repr(x + '.ucg') for x in names))
     work = tempfile.mkdtemp(prefix='verif_c14n_')
     n = 0
     try:
@@ -214,6 +215,17 @@ def standin_artifact_name(tier, seed):
                     os.makedirs(os.path.dirname(os.path.join(d, rel)), exist_ok=True)
                     open(os.path.join(d, rel), 'w').write('out %s %s;\n' % (f, good[f]))
                     srcs.append((f, nm, rel))
+                # a source that is a symlink: the artifact is named like the file GIVEN (deploy/..), not like / next to the link target
+                os.makedirs(os.path.join(d, 'shared'), exist_ok=True)
+                os.makedirs(os.path.join(d, 'deploy'), exist_ok=True)
+                open(os.path.join(d, 'shared', f + '_base.ucg'), 'w').write('out %s %s;\n' % (f, good[f]))
+                links = [('prod', os.path.join('..', 'shared', f + '_base.ucg'))] + ([('abs', os.path.join(d, 'shared', f + '_base.ucg'))] if tier == 'thorough' else [])
+                for ln, target in links:
+                    rel = os.path.join('deploy', '%s_%s.ucg' % (f, ln))
+                    os.symlink(target, os.path.join(d, rel))
+                    srcs.append((f, 'symlink -> ' + target, rel))
+            if mi == 2 and tier != 'thorough':
+                srcs = [x for x in srcs if os.path.dirname(x[2]) in ('', 'deploy')]      # one invocation per directory: keep the quick tier short
             before = tree(d)
             if mi == 0:
                 # (the `convert` programs ride along in the first invocation)
@@ -252,6 +264,26 @@ def standin_artifact_name(tier, seed):
                 if got != conv[f]:
                     return viol(name, bound, n, '%s (%s): artifact %s holds %r, `convert %s` of the value is %r' % (rel, mname, art, got[:100], f, conv[f][:100]), source='out %s %s;' % (f, good[f]),
                                 expected=conv[f].decode('utf-8', 'replace'), observed=got.decode('utf-8', 'replace')[:1000], how='`ucg build %s` by %s' % (rel, mname))
+        # the same file built twice, the second output SHORTER than the first: the artifact is exactly the new bytes (no stale tail)
+        d = os.path.join(work, 'rb')
+        os.mkdir(d)
+        pad = 'p' * 300
+        longer = {'json': '{a = 1, pad = "%s"}', 'yaml': '{a = 1, pad = "%s"}', 'yamlmulti': '[{a = 1}, {b = 2}, {pad = "%s"}]', 'toml': '{a = 1, pad = "%s"}', 'env': '{A = "x", PAD = "%s"}',
+                  'flags': '{a = 1, pad = "%s"}', 'exec': '{command = "app", args = ["%s"]}', 'xml': '{root = {name = "top", children = ["%s"]}}'}
+        for rnd_i, vals in enumerate(({f: longer[f] % pad for f in good}, good)):
+            for f in good:
+                open(os.path.join(d, 'rb_%s.ucg' % f), 'w').write('out %s %s;\n' % (f, vals[f]))
+            rc, so, se = R.run_ucg(['build'] + ['rb_%s.ucg' % f for f in sorted(good)], d, timeout=600)
+            for f in sorted(good):
+                got = rd(os.path.join(d, 'rb_%s.%s' % (f, EXT[f])))
+                n += 1
+                if rnd_i == 0 and (rc != 0 or got is None or len(got) <= len(conv[f])):
+                    return viol(name, bound, n, 'first build of `out %s <long value>`: exit status %d, artifact %s' % (f, rc, 'missing' if got is None else '%d bytes' % len(got)), source='out %s %s;' % (f, vals[f]),
+                                expected='an artifact longer than %d bytes' % len(conv[f]), observed=(so + se)[-300:], how='`ucg build rb_%s.ucg`' % f)
+                if rnd_i == 1 and (rc != 0 or got != conv[f]):
+                    return viol(name, bound, n, 'rb_%s.ucg rebuilt with a shorter output: artifact holds %d bytes %r..., `convert %s` of the new value is %d bytes %r' % (
+                        f, len(got or b''), (got or b'')[:80], f, len(conv[f]), conv[f][:80]), source='first: out %s %s;\nthen: out %s %s;' % (f, longer[f] % pad, f, good[f]),
+                        expected=conv[f].decode('utf-8', 'replace'), observed=(got or b'').decode('utf-8', 'replace')[:1500], how='`ucg build rb_%s.ucg` twice, the source edited in between' % f)
         # 0 and 2 out statements
         d = os.path.join(work, 'outs')
         os.mkdir(d)
@@ -272,8 +304,19 @@ def standin_artifact_name(tier, seed):
             n += 1
             if rc == 0:
                 return viol(name, bound, n, 'a file with two out statements builds: `%s`' % src.replace('\n', ' '), source=src, expected='build error (exit != 0)', observed='rc=0, files: %s' % sorted(tree(d)), how='`ucg build t%d.ucg`' % i)
-            if tier != 'thorough' and i >= 1:
+            if tier != 'thorough' and i >= 0:
                 break
+        # ... also when the file is reached through `..`, `./` or an absolute path
+        os.mkdir(os.path.join(d, 'conf'))
+        os.mkdir(os.path.join(d, 'sib'))
+        open(os.path.join(d, 'conf', 'two.ucg'), 'w').write(two[0])
+        routes = [(['../conf/two.ucg'], os.path.join(d, 'sib')), (['./two.ucg'], os.path.join(d, 'conf')), ([os.path.join(d, 'sib', '..', 'conf', 'two.ucg')], d), (['conf/../conf/two.ucg'], d)]
+        for args, cwd in routes[:None if tier == 'thorough' else 1]:
+            rc, so, se = R.run_ucg(['build'] + args, cwd)
+            n += 1
+            if rc == 0:
+                return viol(name, bound, n, 'a file with two out statements builds when given as %s' % args[0], source=two[0], expected='build error (exit != 0)', observed='rc=0, files: %s' % sorted(tree(d)),
+                            how='`ucg build %s` from %s (file conf/two.ucg, sibling directory sib/)' % (args[0], os.path.relpath(cwd, d)))
     finally:
         shutil.rmtree(work, ignore_errors=True)
     return dict(name=name, bound=bound, cases=n, status='ok')
